@@ -577,6 +577,8 @@ def load_known():
 
 
 def write_evidence(pid, tier, res, repo, wall, violations, extra=None):
+    if os.environ.get("VERIF_NO_EVIDENCE"):
+        return None
     os.makedirs(os.path.join(VERIF, "evidence"), exist_ok=True)
     samples = []
     for rid, insts in res.instances.items():
@@ -652,8 +654,9 @@ def report(pid, tier, res, repo, t0, extra=None, quiet=False):
         os.makedirs(os.path.join(VERIF, "evidence", "replay"), exist_ok=True)
         for i, f in enumerate(new):
             rp = os.path.join(VERIF, "evidence", "replay", "%s-%d.json" % (pid, i))
-            with open(rp, "w") as fh:
-                json.dump(f.as_dict(), fh, indent=1)
+            if not os.environ.get("VERIF_NO_EVIDENCE"):
+                with open(rp, "w") as fh:
+                    json.dump(f.as_dict(), fh, indent=1)
             print("  %s" % f)
             print("VIOLATION property=%s replay=%s" % (pid, rp))
         return 1
